@@ -58,9 +58,11 @@ namespace occa {
 
                 // Validate the dimensions
                 attributeToken_t &dimAttr = it->second;
+                // On errors the call is left as it is: replacing it by NULL leaves
+                // a hole in the expression that the next replacement runs into
                 if (!callHasValidIndices(call, dimAttr)) {
                   success = false;
-                  return NULL;
+                  return &call;
                 }
 
                 // Check @dimOrder
@@ -73,7 +75,7 @@ namespace occa {
                   }
                 } else if (!getDimOrder(dimAttr, it->second, order)) {
                   success = false;
-                  return NULL;
+                  return &call;
                 }
 
                 // Expand the dimensions:
